@@ -21,6 +21,9 @@ def fog_list(f):
 def gen_segs(rng, kind):
     if kind == "leaf":
         return []
+    if kind == "selfseg":
+        # the empty continuation: the prefix is replaced by itself (alone: no change; with others: nested, rejected)
+        return rng.choice([[[]], [[]], [[], [rng.randrange(16)]], [[], []]])
     if kind == "ext":
         return [[rng.randrange(16) for _ in range(rng.randint(1, 4))]]
     if kind == "branch":
@@ -76,7 +79,7 @@ def gen_case(rng, tier):
         members = fog_list(f)
         r = rng.random()
         if r < 0.55:
-            kind = rng.choice(["leaf", "ext", "branch", "branch", "mixed", "mixed", "dup", "nested", "nested3", "bad"])
+            kind = rng.choice(["leaf", "ext", "branch", "branch", "mixed", "mixed", "dup", "nested", "nested3", "bad", "selfseg"])
             if members and rng.random() < 0.9:
                 p = list(rng.choice(members))
             else:
